@@ -350,7 +350,12 @@ static void print_audit(void)
 	for (r = proxy.p_clnts; r; r = r->p_next) {
 		HCLNT *c = by_dfd(r->io.sock_fd);
 		printf(" | c%d st=%d cur=", c ? (int)(c - hc) : -1, (int) r->state);
-		if (r->p_sliced) printf("%d", seq_of(r->p_sliced)); else printf("-");
+		if (r->p_sliced) {
+			/* a cursor that is not in the queue (dangling: its buffer was recycled or freed) prints as `?`, like the model */
+			PROXY_QUEUE *w; int in_q = 0, g2;
+			for (w = d->p_sliced, g2 = 0; w && g2 < 2000; w = w->p_next, g2++) if (w == r->p_sliced) in_q = 1;
+			if (in_q) printf("%d", seq_of(r->p_sliced)); else printf("?");
+		} else printf("-");
 		printf(" as=%x sv=", r->all_services);
 		for (s = 0; s < VBI_MAX_STRICT - VBI_MIN_STRICT + 1; ++s) printf("%s%x", s ? "," : "", r->services[s]);
 		printf(" ov=%d ml=%d wl=%u", r->buffer_overflow ? 1 : 0, r->vbi_count[0] + r->vbi_count[1],
